@@ -72,6 +72,7 @@ type verifPoolScript struct {
 	connects     int
 	failUpdateAt int // fail the k-th update (1-based); 0 = never
 	gate         chan struct{} // when set, an update waits here for the pool's answer
+	nullLists    bool          // empty lists are handed out as nil slices
 }
 
 func (p *verifPoolScript) Host(ctx context.Context, req pool.HostRequest) (*pool.HostResponse, error) {
@@ -105,6 +106,13 @@ func (p *verifPoolScript) Update(ctx context.Context, req pool.UpdateRequest) (*
 	r := *p.update
 	r.InvalidPeers = append([]string{}, p.update.InvalidPeers...)
 	r.ActivePeers = append([]string{}, p.update.ActivePeers...)
+	if len(r.ActivePeers) == 0 && p.nullLists {
+		// an empty list may arrive as JSON null (or not at all): decoded, that is a nil slice
+		r.ActivePeers = nil
+	}
+	if len(r.InvalidPeers) == 0 && p.nullLists {
+		r.InvalidPeers = nil
+	}
 	return &r, nil
 }
 func (p *verifPoolScript) Peer(ctx context.Context, req pool.PeerRequest) (*pool.PeerResponse, error) {
@@ -190,7 +198,7 @@ func VerifC18Update() {
 		node.peers = append(node.peers, pi)
 		locals = append(locals, local{shape.id, shape.host})
 	}
-	script := &verifPoolScript{update: &pool.UpdateResponse{}}
+	script := &verifPoolScript{update: &pool.UpdateResponse{}, nullLists: verifapi.Bool("empty-lists-arrive-as-null")}
 	type act struct{ id, host string }
 	var actives []act
 	for i := 0; i < nReply; i++ {
